@@ -19,6 +19,7 @@
 use std::collections::hash_map::DefaultHasher;
 use std::collections::BTreeMap;
 use std::hash::{Hash, Hasher};
+use std::sync::atomic::{AtomicU64, Ordering as AtomicOrdering};
 use std::sync::Mutex;
 use rayon::prelude::*;
 use rpki::uri::{Https, Rsync};
@@ -32,32 +33,43 @@ const SIGMA: [u8; 7] = [b'a', b'A', b'b', b'/', b'.', b':', b' '];
 type Oc = BTreeMap<&'static str, u64>;
 fn bump(m: &mut Oc, k: &'static str) { *m.entry(k).or_insert(0) += 1 }
 
-/// Failures of one work item, reported to the Ctx in enumeration order (so
-/// that the printed witnesses do not depend on thread scheduling).
-struct Fails(Vec<(&'static str, String, String)>);
+/// Failures of one work item, handed to the Ctx in enumeration order so that
+/// the printed witnesses do not depend on thread scheduling. At most ROW_CAP
+/// failures per oracle and work item are rendered; the rest are only counted
+/// (a broken relation would otherwise produce billions of strings).
+static SUPPRESSED: AtomicU64 = AtomicU64::new(0);
+const ROW_CAP: u32 = 16;
+struct Fails { v: Vec<(&'static str, String, String)>, per: BTreeMap<&'static str, u32> }
 impl Fails {
-    fn fail(&mut self, o: &'static str, w: String, d: impl Into<String>) { self.0.push((o, w, d.into())) }
+    fn new() -> Self { Fails { v: Vec::new(), per: BTreeMap::new() } }
+    fn fail(&mut self, o: &'static str, w: &dyn Fn() -> String, d: impl FnOnce() -> String) {
+        let c = self.per.entry(o).or_insert(0); *c += 1;
+        if *c <= ROW_CAP { self.v.push((o, w(), d())) } else { SUPPRESSED.fetch_add(1, AtomicOrdering::Relaxed); }
+    }
     fn check(&mut self, o: &'static str, w: &dyn Fn() -> String, f: impl FnOnce() -> Result<(), String>) -> bool {
         match guard(f) {
             Ok(Ok(())) => true,
-            Ok(Err(d)) => { self.fail(o, w(), d); false }
-            Err(p) => { self.fail(o, w(), p); false }
+            Ok(Err(d)) => { self.fail(o, w, || d); false }
+            Err(p) => { self.fail(o, w, || p); false }
         }
     }
+    fn flush(self, ctx: &Ctx) { for (o, w, d) in self.v { ctx.fail(o, w, d) } }
 }
-
 /// Runs f(i) for i in 0..n on all cores, in batches; failures are handed to
 /// the Ctx sequentially in index order after each batch.
 fn batched(ctx: &Ctx, n: usize, batch: usize, f: impl Fn(usize, &mut Fails) + Sync) {
     let mut lo = 0;
     while lo < n {
         let hi = (lo + batch).min(n);
-        let out: Vec<Vec<(&'static str, String, String)>> = (lo..hi).into_par_iter().map(|i| {
-            let mut fl = Fails(Vec::new()); f(i, &mut fl); fl.0
-        }).collect();
-        for v in out { for (o, w, d) in v { ctx.fail(o, w, d) } }
+        let out: Vec<Fails> = (lo..hi).into_par_iter().map(|i| { let mut fl = Fails::new(); f(i, &mut fl); fl }).collect();
+        for v in out { v.flush(ctx) }
         lo = hi;
     }
+}
+
+/// Opt-in progress line on stderr (VERIF_TIMING=1); never part of the evidence.
+fn lap(t0: &std::time::Instant, what: &str) {
+    if std::env::var_os("VERIF_TIMING").is_some() { eprintln!("[timing] {:>8.2}s  {what}", t0.elapsed().as_secs_f64()) }
 }
 
 // ------------------------------------------------------------------ model
@@ -177,7 +189,7 @@ fn unary_rsync(fl: &mut Fails, text: &[u8], u: &Rsync, wit: &dyn Fn() -> String,
     // accepted => grammar
     let m = match model_rsync(text) {
         Ok(m) => m,
-        Err(e) => { fl.fail("C12.rsync.parse.sound", wit(), format!("accepted although the grammar forbids it: {e}")); return }
+        Err(e) => { fl.fail("C12.rsync.parse.sound", &wit, || format!("accepted although the grammar forbids it: {e}")); return }
     };
     fl.check("C12.rsync.parse.faithful", wit, || {
         if u.as_slice() != text || u.as_str().as_bytes() != text || u.to_bytes().as_ref() != text || u.to_string().as_bytes() != text {
@@ -208,7 +220,7 @@ fn unary_rsync(fl: &mut Fails, text: &[u8], u: &Rsync, wit: &dyn Fn() -> String,
     });
     // parent
     match guard(|| u.parent()) {
-        Err(p) => fl.fail("C12.rsync.parent.valid", wit(), p),
+        Err(p) => fl.fail("C12.rsync.parent.valid", &wit, || p),
         Ok(None) => bump(oc, "rsync-parent-none"),
         Ok(Some(p)) => {
             bump(oc, "rsync-parent-some");
@@ -229,7 +241,7 @@ fn unary_rsync(fl: &mut Fails, text: &[u8], u: &Rsync, wit: &dyn Fn() -> String,
 fn unary_https(fl: &mut Fails, text: &[u8], u: &Https, wit: &dyn Fn() -> String, oc: &mut Oc) {
     let m = match model_https(text) {
         Ok(m) => m,
-        Err(e) => { fl.fail("C12.https.parse.sound", wit(), format!("accepted although the grammar forbids it: {e}")); return }
+        Err(e) => { fl.fail("C12.https.parse.sound", &wit, || format!("accepted although the grammar forbids it: {e}")); return }
     };
     fl.check("C12.https.parse.faithful", wit, || {
         if u.as_slice() != text || u.as_str().as_bytes() != text || u.to_string().as_bytes() != text {
@@ -256,7 +268,7 @@ fn unary_https(fl: &mut Fails, text: &[u8], u: &Https, wit: &dyn Fn() -> String,
     });
     if m.authority.is_empty() { bump(oc, "https-empty-authority-accepted") }
     match guard(|| u.parent()) {
-        Err(p) => fl.fail("C12.https.parent.valid", wit(), p),
+        Err(p) => fl.fail("C12.https.parent.valid", &wit, || p),
         Ok(None) => bump(oc, "https-parent-none"),
         Ok(Some(p)) => {
             bump(oc, "https-parent-some");
@@ -281,7 +293,7 @@ fn mk_ru(texts: &[Vec<u8>]) -> Vec<RU> {
     let mut v: Vec<RU> = texts.iter().map(|t| {
         let uri = Rsync::from_slice(t).expect("stored URI was accepted before");
         let m = model_rsync(t).expect("stored URI passed the model before");
-        RU { hash: h(&uri), uri, text: t.clone(), pkey: rsync_prefix_key(&m), path: m.path.to_vec(), dir: rsync_dir(m.path), rep: 0 }
+        RU { hash: guard(|| h(&uri)).unwrap_or(0), uri, text: t.clone(), pkey: rsync_prefix_key(&m), path: m.path.to_vec(), dir: rsync_dir(m.path), rep: 0 }
     }).collect();
     // class representative = first member (enumeration order) with the same key
     let mut first: BTreeMap<(Vec<u8>, Vec<u8>), usize> = BTreeMap::new();
@@ -292,7 +304,7 @@ fn mk_hu(texts: &[Vec<u8>]) -> Vec<HU> {
     texts.iter().map(|t| {
         let uri = Https::from_slice(t).expect("stored URI was accepted before");
         let m = model_https(t).expect("stored URI passed the model before");
-        HU { hash: h(&uri), uri, text: t.clone(), pkey: https_prefix_key(&m), auth_lc: lower(m.authority), path: m.path.to_vec() }
+        HU { hash: guard(|| h(&uri)).unwrap_or(0), uri, text: t.clone(), pkey: https_prefix_key(&m), auth_lc: lower(m.authority), path: m.path.to_vec() }
     }).collect()
 }
 
@@ -320,6 +332,7 @@ fn group(m: Stored) -> BTreeMap<usize, Vec<Vec<u8>>> {
 // --------------------------------------------------------------------- main
 
 fn main() {
+    let t0 = std::time::Instant::now();
     let ctx = Ctx::new("C12", "exploration");
     ctx.assume("the grammar in the doc comments of src/uri.rs (permitted characters; rsync://authority/module/path with non-empty authority and module, no empty or dot segments; https://authority[/path]) is the specification");
     ctx.assume("std::hash::DefaultHasher::new() is deterministic; a property-level hash disagreement would show with any hasher");
@@ -355,7 +368,7 @@ fn main() {
                 let wit = || format!("text={:?}", s(t));
                 let mut accepted = false;
                 match guard(|| Rsync::from_slice(t)) {
-                    Err(p) => fl.fail("C12.rsync.parse.nopanic", wit(), p),
+                    Err(p) => fl.fail("C12.rsync.parse.nopanic", &wit, || p),
                     Ok(Err(_)) => {
                         if model_rsync(t).is_ok() { bump(&mut oc, "rsync-rejected-though-grammatical") } else { bump(&mut oc, "rsync-rejected") }
                     }
@@ -366,7 +379,7 @@ fn main() {
                     }
                 }
                 match guard(|| Https::from_slice(t)) {
-                    Err(p) => fl.fail("C12.https.parse.nopanic", wit(), p),
+                    Err(p) => fl.fail("C12.https.parse.nopanic", &wit, || p),
                     Ok(Err(_)) => {
                         if model_https(t).is_ok() { bump(&mut oc, "https-rejected-though-grammatical") } else { bump(&mut oc, "https-rejected") }
                     }
@@ -387,7 +400,7 @@ fn main() {
     sp.set("rsync_accepted_by_tail_length", sizes(&r_by_len)); sp.set("https_accepted_by_tail_length", sizes(&h_by_len));
     sp.sample_str(|| "text=\"rsync://a/b/\" -> rsync accepted (authority a, module b, path \"\"), https rejected".into());
     sp.sample_str(|| "text=\"HTTPS://A:/.a\" -> https accepted (authority A:, path /.a), rsync rejected".into());
-    sp.done(true, &format!("8 scheme variants x all tails of length <= {max_tail} over 7 symbols, both parsers"));
+    sp.done(true, &format!("8 scheme variants x all tails of length <= {max_tail} over 7 symbols, both parsers")); lap(&t0, &sp.name);
 
     // ---------------------------------------------------------------- 2. bytes
     let sp = ctx.space("bytes",
@@ -395,7 +408,7 @@ fn main() {
     {
         let seeds: [&[u8]; 4] = [b"rsync://host/module/path/x", b"RSYNC://h/m/", b"https://host/path/x", b"https://host"];
         let mut oc: Oc = BTreeMap::new(); let mut nt = 0u64;
-        let mut fl = Fails(Vec::new());
+        let mut fl = Fails::new();
         for seed in seeds { for pos in 0..=seed.len() { for b in 0..=255u8 { for ins in [false, true] {
             if !ins && pos == seed.len() { continue }
             let mut t = seed.to_vec();
@@ -403,12 +416,12 @@ fn main() {
             let wit = || format!("hex={}", hex(&t));
             sp.evals(2);
             match guard(|| Rsync::from_slice(&t)) {
-                Err(p) => fl.fail("C12.rsync.parse.nopanic", wit(), p),
+                Err(p) => fl.fail("C12.rsync.parse.nopanic", &wit, || p),
                 Ok(Err(_)) => bump(&mut oc, "rejected"),
                 Ok(Ok(u)) => { bump(&mut oc, "rsync-accepted"); nt += 1; unary_rsync(&mut fl, &t, &u, &wit, &mut oc) }
             }
             match guard(|| Https::from_slice(&t)) {
-                Err(p) => fl.fail("C12.https.parse.nopanic", wit(), p),
+                Err(p) => fl.fail("C12.https.parse.nopanic", &wit, || p),
                 Ok(Err(_)) => bump(&mut oc, "rejected"),
                 Ok(Ok(u)) => { bump(&mut oc, "https-accepted"); nt += 1; unary_https(&mut fl, &t, &u, &wit, &mut oc) }
             }
@@ -419,18 +432,18 @@ fn main() {
             sp.evals(2);
             let wit = || format!("base={} arg_hex={}", rb.as_str(), hex(&arg));
             match guard(|| rb.join(&arg)) {
-                Err(p) => fl.fail("C12.rsync.join.valid", wit(), p),
+                Err(p) => fl.fail("C12.rsync.join.valid", &wit, || p),
                 Ok(Err(_)) => bump(&mut oc, "join-rejected"),
                 Ok(Ok(r)) => { bump(&mut oc, "join-accepted"); nt += 1; fl.check("C12.rsync.join.valid", &wit, || valid_rsync(&r)); }
             }
             let wit = || format!("base={} arg_hex={}", hb.as_str(), hex(&arg));
             match guard(|| hb.join(&arg)) {
-                Err(p) => fl.fail("C12.https.join.valid", wit(), p),
+                Err(p) => fl.fail("C12.https.join.valid", &wit, || p),
                 Ok(Err(_)) => bump(&mut oc, "join-rejected"),
                 Ok(Ok(r)) => { bump(&mut oc, "join-accepted"); nt += 1; fl.check("C12.https.join.valid", &wit, || valid_https(&r)); }
             }
         }}
-        for (o, w, d) in fl.0 { ctx.fail(o, w, d) }
+        fl.flush(&ctx);
         sp.nontrivial(nt); sp.merge_outcomes(&oc);
         sp.sample_str(|| "hex=7273796e633a2f2f686f73742f6d6f64756c652f706174682f40 (…/@): rejected by the library although '@' is not in the documented forbidden list (stricter, not a violation)".into());
         sp.done(true, "256 octets x every position x {substitute, insert} x 4 seeds x 2 parsers; 256 x 3 join arguments x 2 types");
@@ -456,16 +469,16 @@ fn main() {
                     let par_rep = ru[a.rep].uri.is_parent_of(&ru[b.rep].uri);
                     (eq, eq_rev, rel, par, par_rep)
                 });
-                let (eq, eq_rev, rel, par, par_rep) = match obs { Ok(o) => o, Err(p) => { fl.fail("C12.rsync.pair.nopanic", wit(), p); continue } };
+                let (eq, eq_rev, rel, par, par_rep) = match obs { Ok(o) => o, Err(p) => { fl.fail("C12.rsync.pair.nopanic", &wit, || p); continue } };
                 let m_eq = a.pkey == b.pkey && a.path == b.path;
                 let m_slash_eq = a.pkey == b.pkey && strip1(&a.path) == strip1(&b.path);
                 let m_par = beneath(&a.pkey, &a.dir, &b.pkey, &b.path);
-                if eq != m_eq { fl.fail("C12.rsync.eq.model", wit(), format!("== is {eq}, text model (scheme+authority case-insensitive, rest exact) says {m_eq}")) }
-                if eq != eq_rev { fl.fail("C12.rsync.eq.symmetric", wit(), format!("a==b is {eq}, b==a is {eq_rev}")) }
-                if eq && a.hash != b.hash { fl.fail("C12.rsync.eq.hash", wit(), "equal URIs hash differently") }
+                if eq != m_eq { fl.fail("C12.rsync.eq.model", &wit, || format!("== is {eq}, text model (scheme+authority case-insensitive, rest exact) says {m_eq}")) }
+                if eq != eq_rev { fl.fail("C12.rsync.eq.symmetric", &wit, || format!("a==b is {eq}, b==a is {eq_rev}")) }
+                if eq && a.hash != b.hash { fl.fail("C12.rsync.eq.hash", &wit, || "equal URIs hash differently".into()) }
                 let rel_empty = rel == Some("");
                 if rel_empty != m_slash_eq {
-                    fl.fail("C12.rsync.relative_to.empty", wit(), format!("relative_to = {rel:?}; equal up to one trailing slash: {m_slash_eq}"));
+                    fl.fail("C12.rsync.relative_to.empty", &wit, || format!("relative_to = {rel:?}; equal up to one trailing slash: {m_slash_eq}"));
                 }
                 if let Some(p) = rel { if !p.is_empty() {
                     fl.check("C12.rsync.relative_to.join", &wit, || {
@@ -474,10 +487,10 @@ fn main() {
                         Ok(())
                     });
                 }}
-                if par && eq { fl.fail("C12.rsync.is_parent_of.irreflexive", wit(), "is_parent_of holds between equal URIs") }
-                if par != m_par { fl.fail("C12.rsync.is_parent_of.model", wit(), format!("self.is_parent_of(other) = {par}; text model (other lies beneath self under this equality) says {m_par}")) }
+                if par && eq { fl.fail("C12.rsync.is_parent_of.irreflexive", &wit, || "is_parent_of holds between equal URIs".into()) }
+                if par != m_par { fl.fail("C12.rsync.is_parent_of.model", &wit, || format!("self.is_parent_of(other) = {par}; text model (other lies beneath self under this equality) says {m_par}")) }
                 if par != par_rep {
-                    fl.fail("C12.rsync.is_parent_of.eq_invariant", wit(), format!("is_parent_of = {par} but {par_rep} for the equal URIs {} / {}", s(&ru[a.rep].text), s(&ru[b.rep].text)));
+                    fl.fail("C12.rsync.is_parent_of.eq_invariant", &wit, || format!("is_parent_of = {par} but {par_rep} for the equal URIs {} / {}", s(&ru[a.rep].text), s(&ru[b.rep].text)));
                 }
                 if i != j && (m_eq || rel.is_some() || par) { nt += 1 }
                 if eq { if i == j { c_ident += 1 } else { c_eq += 1 } } else { c_uneq += 1 }
@@ -490,7 +503,7 @@ fn main() {
         });
         sp.set("uris", json!(n)); sp.set("tail_length", json!(pair_r));
         sp.sample_str(|| format!("first/last URI of the set: {} … {}", s(&ru[0].text), s(&ru[n - 1].text)));
-        sp.done(true, &format!("all {n}^2 ordered pairs of the accepted rsync URIs with tail length <= {pair_r}"));
+        sp.done(true, &format!("all {n}^2 ordered pairs of the accepted rsync URIs with tail length <= {pair_r}")); lap(&t0, &sp.name);
     }
     drop(ru);
 
@@ -508,12 +521,12 @@ fn main() {
                 let b = &hu[j];
                 let wit = || format!("a={} b={}", s(&a.text), s(&b.text));
                 let obs = guard(|| (a.uri == b.uri, b.uri == a.uri, a.uri.eq_authority(&b.uri)));
-                let (eq, eq_rev, eqa) = match obs { Ok(o) => o, Err(p) => { fl.fail("C12.https.pair.nopanic", wit(), p); continue } };
+                let (eq, eq_rev, eqa) = match obs { Ok(o) => o, Err(p) => { fl.fail("C12.https.pair.nopanic", &wit, || p); continue } };
                 let m_eq = a.pkey == b.pkey && a.path == b.path;
-                if eq != m_eq { fl.fail("C12.https.eq.model", wit(), format!("== is {eq}, text model says {m_eq}")) }
-                if eq != eq_rev { fl.fail("C12.https.eq.symmetric", wit(), format!("a==b is {eq}, b==a is {eq_rev}")) }
-                if eq && a.hash != b.hash { fl.fail("C12.https.eq.hash", wit(), "equal URIs hash differently") }
-                if eqa != (a.auth_lc == b.auth_lc) { fl.fail("C12.https.eq_authority", wit(), format!("eq_authority = {eqa}")) }
+                if eq != m_eq { fl.fail("C12.https.eq.model", &wit, || format!("== is {eq}, text model says {m_eq}")) }
+                if eq != eq_rev { fl.fail("C12.https.eq.symmetric", &wit, || format!("a==b is {eq}, b==a is {eq_rev}")) }
+                if eq && a.hash != b.hash { fl.fail("C12.https.eq.hash", &wit, || "equal URIs hash differently".into()) }
+                if eqa != (a.auth_lc == b.auth_lc) { fl.fail("C12.https.eq_authority", &wit, || format!("eq_authority = {eqa}")) }
                 if i != j && (m_eq || a.auth_lc == b.auth_lc) { nt += 1 }
                 if eq { if i == j { c_ident += 1 } else { c_eq += 1 } } else if eqa { c_auth += 1 } else { c_uneq += 1 }
             }
@@ -522,7 +535,7 @@ fn main() {
         });
         sp.set("uris", json!(n)); sp.set("tail_length", json!(pair_h));
         sp.sample_str(|| format!("first/last URI of the set: {} … {}", s(&hu[0].text), s(&hu[n - 1].text)));
-        sp.done(true, &format!("all {n}^2 ordered pairs of the accepted https URIs with tail length <= {pair_h}"));
+        sp.done(true, &format!("all {n}^2 ordered pairs of the accepted https URIs with tail length <= {pair_h}")); lap(&t0, &sp.name);
     }
     drop(hu);
 
@@ -539,7 +552,7 @@ fn main() {
             for p in &args {
                 let wit = || format!("base={} arg={:?}", s(&a.text), s(p));
                 let r = match guard(|| a.uri.join(p)) {
-                    Err(pn) => { fl.fail("C12.rsync.join.valid", wit(), pn); continue }
+                    Err(pn) => { fl.fail("C12.rsync.join.valid", &wit, || pn); continue }
                     Ok(Err(_)) => {
                         // concatenation per the documentation
                         let mut cat = a.text.clone(); if !cat.ends_with(b"/") { cat.push(b'/') } cat.extend_from_slice(p);
@@ -586,7 +599,7 @@ fn main() {
         });
         sp.set("bases", json!(n)); sp.set("arguments", json!(args.len())); sp.set("base_tail_length", json!(join_r));
         sp.sample_str(|| "base=rsync://a/b/a arg=\"b/\" -> rsync://a/b/a/b/".into());
-        sp.done(true, &format!("{n} bases (tail length <= {join_r}) x all {} arguments of length <= {arg_len}", args.len()));
+        sp.done(true, &format!("{n} bases (tail length <= {join_r}) x all {} arguments of length <= {arg_len}", args.len())); lap(&t0, &sp.name);
     }
     drop(rj);
 
@@ -602,7 +615,7 @@ fn main() {
             for p in &args {
                 let wit = || format!("base={} arg={:?}", s(&a.text), s(p));
                 let r = match guard(|| a.uri.join(p)) {
-                    Err(pn) => { fl.fail("C12.https.join.valid", wit(), pn); continue }
+                    Err(pn) => { fl.fail("C12.https.join.valid", &wit, || pn); continue }
                     Ok(Err(_)) => { bump(&mut oc, if p.iter().all(|&b| permitted(b)) { "rejected-though-permitted" } else { "rejected" }); continue }
                     Ok(Ok(r)) => r,
                 };
@@ -643,7 +656,7 @@ fn main() {
         });
         sp.set("bases", json!(n)); sp.set("arguments", json!(args.len())); sp.set("base_tail_length", json!(join_h));
         sp.sample_str(|| "base=https://a arg=\"b\" -> must be https://a/b (authority a)".into());
-        sp.done(true, &format!("{n} bases (tail length <= {join_h}) x all {} arguments of length <= {arg_len}", args.len()));
+        sp.done(true, &format!("{n} bases (tail length <= {join_h}) x all {} arguments of length <= {arg_len}", args.len())); lap(&t0, &sp.name);
     }
     drop(hj);
 
@@ -667,8 +680,16 @@ fn main() {
         "all ordered triples (a,b,c) of accepted rsync URIs over {rsync://, RSYNC://} x tails over {a,A,/}: transitivity of == and of is_parent_of on the relations computed by the real code (n^2 calls each); non-trivial = triples of three different texts in which both premises of one of the two implications hold");
     {
         let n = tr.len();
-        let eqm: Vec<bool> = (0..n * n).into_par_iter().map(|k| tr[k / n].uri == tr[k % n].uri).collect();
-        let parm: Vec<bool> = (0..n * n).into_par_iter().map(|k| tr[k / n].uri.is_parent_of(&tr[k % n].uri)).collect();
+        // a panicking comparison counts as "unrelated" here; it is reported once per pair below
+        let rel = |f: &(dyn Fn(usize, usize) -> bool + Sync)| -> (Vec<bool>, Vec<usize>) {
+            let raw: Vec<u8> = (0..n * n).into_par_iter().map(|k| match guard(|| f(k / n, k % n)) { Ok(b) => b as u8, Err(_) => 2 }).collect();
+            (raw.iter().map(|&x| x == 1).collect(), raw.iter().enumerate().filter(|(_, x)| **x == 2).map(|(k, _)| k).collect())
+        };
+        let (eqm, eq_panics) = rel(&|a, b| tr[a].uri == tr[b].uri);
+        let (parm, par_panics) = rel(&|a, b| tr[a].uri.is_parent_of(&tr[b].uri));
+        for k in eq_panics.iter().chain(par_panics.iter()).take(64) {
+            ctx.fail("C12.rsync.pair.nopanic", format!("self={} other={}", s(&tr[k / n].text), s(&tr[k % n].text)), "== or is_parent_of panicked");
+        }
         sp.evals(2 * (n * n) as u64);
         batched(&ctx, n, 4096, |a, fl| {
             let mut nt = 0u64; let (mut c_eq, mut c_par, mut c_none) = (0u64, 0u64, 0u64);
@@ -679,11 +700,11 @@ fn main() {
                     let distinct = a != b && b != c && a != c;
                     if eab && eqm[b * n + c] {
                         if distinct { nt += 1; c_eq += 1 }
-                        if !eqm[a * n + c] { fl.fail("C12.rsync.eq.transitive", format!("a={} b={} c={}", s(&tr[a].text), s(&tr[b].text), s(&tr[c].text)), "a==b and b==c but a!=c") }
+                        if !eqm[a * n + c] { fl.fail("C12.rsync.eq.transitive", &|| format!("a={} b={} c={}", s(&tr[a].text), s(&tr[b].text), s(&tr[c].text)), || "a==b and b==c but a!=c".into()) }
                     }
                     if pab && parm[b * n + c] {
                         if distinct { nt += 1; c_par += 1 }
-                        if !parm[a * n + c] { fl.fail("C12.rsync.is_parent_of.transitive", format!("a={} b={} c={}", s(&tr[a].text), s(&tr[b].text), s(&tr[c].text)), "a parent of b, b parent of c, but a not parent of c") }
+                        if !parm[a * n + c] { fl.fail("C12.rsync.is_parent_of.transitive", &|| format!("a={} b={} c={}", s(&tr[a].text), s(&tr[b].text), s(&tr[c].text)), || "a parent of b, b parent of c, but a not parent of c".into()) }
                     }
                 }
             }
@@ -693,7 +714,7 @@ fn main() {
         });
         sp.set("uris", json!(n)); sp.set("tail_length", json!(tri_tail));
         sp.sample_str(|| "a=rsync://a/a/ b=RSYNC://A/a/a c=rsync://a/a/a/A : a parent of b, b parent of c".into());
-        sp.done(true, &format!("all {n}^3 triples of the accepted rsync URIs with tails over {{a,A,/}} of length <= {tri_tail}"));
+        sp.done(true, &format!("all {n}^3 triples of the accepted rsync URIs with tails over {{a,A,/}} of length <= {tri_tail}")); lap(&t0, &sp.name);
     }
     let th_tail = tri_tail - 2;
     let th = mk_hu(&build(&["https://", "HTTPS://"], false, th_tail));
@@ -701,7 +722,11 @@ fn main() {
         "all ordered triples of accepted https URIs over {https://, HTTPS://} x tails over {a,A,/}: transitivity of == on the relation computed by the real code; non-trivial = triples of three different texts with a==b and b==c");
     {
         let n = th.len();
-        let eqm: Vec<bool> = (0..n * n).into_par_iter().map(|k| th[k / n].uri == th[k % n].uri).collect();
+        let raw: Vec<u8> = (0..n * n).into_par_iter().map(|k| match guard(|| th[k / n].uri == th[k % n].uri) { Ok(b) => b as u8, Err(_) => 2 }).collect();
+        for (k, _) in raw.iter().enumerate().filter(|(_, x)| **x == 2).take(64) {
+            ctx.fail("C12.https.pair.nopanic", format!("a={} b={}", s(&th[k / n].text), s(&th[k % n].text)), "== panicked");
+        }
+        let eqm: Vec<bool> = raw.iter().map(|&x| x == 1).collect();
         sp.evals((n * n) as u64);
         batched(&ctx, n, 4096, |a, fl| {
             let mut nt = 0u64; let (mut c_eq, mut c_none) = (0u64, 0u64);
@@ -710,7 +735,7 @@ fn main() {
                 for c in 0..n {
                     if eqm[b * n + c] {
                         if a != b && b != c && a != c { nt += 1; c_eq += 1 }
-                        if !eqm[a * n + c] { fl.fail("C12.https.eq.transitive", format!("a={} b={} c={}", s(&th[a].text), s(&th[b].text), s(&th[c].text)), "a==b and b==c but a!=c") }
+                        if !eqm[a * n + c] { fl.fail("C12.https.eq.transitive", &|| format!("a={} b={} c={}", s(&th[a].text), s(&th[b].text), s(&th[c].text)), || "a==b and b==c but a!=c".into()) }
                     }
                 }
             }
@@ -719,7 +744,12 @@ fn main() {
         });
         sp.set("uris", json!(n)); sp.set("tail_length", json!(th_tail));
         sp.sample_str(|| "a=https://aA/ b=HTTPS://Aa/ c=https://AA/ : all equal".into());
-        sp.done(true, &format!("all {n}^3 triples of the accepted https URIs with tails over {{a,A,/}} of length <= {th_tail}"));
+        sp.done(true, &format!("all {n}^3 triples of the accepted https URIs with tails over {{a,A,/}} of length <= {th_tail}")); lap(&t0, &sp.name);
+    }
+    let suppressed = SUPPRESSED.load(AtomicOrdering::Relaxed);
+    if suppressed > 0 {
+        sp.set("failing_cases_counted_but_not_listed_individually", json!(suppressed));
+        println!("note: {suppressed} further failing cases (beyond {ROW_CAP} per oracle and work item) were found but not listed individually");
     }
     ctx.finish();
 }
